@@ -6,10 +6,15 @@ package main
 // parsed by hand), so that the peer can say anything at any time.
 
 import (
+	"bytes"
 	"encoding/binary"
+	"encoding/hex"
 	"errors"
+	"fmt"
 	"io"
 	"net"
+	"os"
+	"path/filepath"
 	"runtime"
 	"strings"
 	"sync"
@@ -17,6 +22,7 @@ import (
 
 	"github.com/blinklabs-io/gouroboros/cbor"
 	"github.com/blinklabs-io/gouroboros/connection"
+	"github.com/blinklabs-io/gouroboros/ledger"
 	"github.com/blinklabs-io/gouroboros/muxer"
 	"github.com/blinklabs-io/gouroboros/protocol"
 )
@@ -238,4 +244,75 @@ func g5WaitLibGoroutines(base int, d time.Duration) (int, string) {
 		}
 		time.Sleep(2 * time.Millisecond)
 	}
+}
+
+// ---- real block fixtures (read by path from the repository under verification)
+
+type g5Block struct {
+	Name string
+	Type uint
+	Cbor []byte
+	Hash []byte
+	Slot uint64
+}
+
+var g5BlocksOnce sync.Once
+var g5BlocksVal []g5Block
+var g5BlocksErr error
+
+func g5RepoDir() string {
+	if d := os.Getenv("VERIF_REPO"); d != "" {
+		return d
+	}
+	return "/repo"
+}
+
+// g5Blocks returns one real block per era (Byron main .. Dijkstra).
+func g5Blocks() ([]g5Block, error) {
+	g5BlocksOnce.Do(func() {
+		files := []struct {
+			name string
+			typ  uint
+			path string
+		}{
+			{"byron", ledger.BlockTypeByronMain, "internal/testdata/byron_block.hex"},
+			{"shelley", ledger.BlockTypeShelley, "internal/testdata/shelley_block.hex"},
+			{"allegra", ledger.BlockTypeAllegra, "internal/testdata/allegra_block.hex"},
+			{"mary", ledger.BlockTypeMary, "internal/testdata/mary_block.hex"},
+			{"alonzo", ledger.BlockTypeAlonzo, "internal/testdata/alonzo_block.hex"},
+			{"babbage", ledger.BlockTypeBabbage, "internal/testdata/babbage_block.hex"},
+			{"conway", ledger.BlockTypeConway, "internal/testdata/conway_block.hex"},
+			{"dijkstra", ledger.BlockTypeDijkstra, "ledger/dijkstra/testdata/musashi_dijkstra_block.hex"},
+		}
+		for _, f := range files {
+			raw, err := os.ReadFile(filepath.Join(g5RepoDir(), f.path))
+			if err != nil {
+				g5BlocksErr = err
+				return
+			}
+			b, err := hex.DecodeString(strings.TrimSpace(string(raw)))
+			if err != nil {
+				g5BlocksErr = err
+				return
+			}
+			blk, err := ledger.NewBlockFromCbor(f.typ, b)
+			if err != nil {
+				g5BlocksErr = fmt.Errorf("%s: %w", f.name, err)
+				return
+			}
+			g5BlocksVal = append(g5BlocksVal, g5Block{f.name, f.typ, b, blk.Hash().Bytes(), blk.SlotNumber()})
+		}
+	})
+	return g5BlocksVal, g5BlocksErr
+}
+
+// g5BlockIndex identifies a block by hash (−1 = none of the fixtures).
+func g5BlockIndex(hash []byte) int {
+	bs, _ := g5Blocks()
+	for i, b := range bs {
+		if bytes.Equal(b.Hash, hash) {
+			return i
+		}
+	}
+	return -1
 }
